@@ -4,6 +4,8 @@ package main
 
 import (
 	"fmt"
+	"math"
+	"math/big"
 	"sort"
 
 	v1 "k8s.io/api/core/v1"
@@ -48,11 +50,12 @@ func init() {
 	api.IgnoredDevicesList.Set([]string{"example.com/ignored"})
 }
 
+// a quantity travels as (whole units, remaining milli-units): whole-unit quantities up to 2^63 units fit
 func decRl(r *tokReader) v1.ResourceList {
 	n := int(r.next())
 	rl := v1.ResourceList{}
 	for i := 0; i < n; i++ {
-		k, m := r.next(), r.next()
+		k, u, f := r.next(), r.next(), r.next()
 		name, ok := rlName[k]
 		if !ok {
 			panic("generator: unknown resource name key")
@@ -60,13 +63,41 @@ func decRl(r *tokReader) v1.ResourceList {
 		if _, dup := rl[name]; dup {
 			continue
 		}
-		if m%1000 == 0 && k%2 == 0 {
-			rl[name] = *resource.NewQuantity(m/1000, resource.BinarySI)
-		} else {
-			rl[name] = *resource.NewMilliQuantity(m, resource.DecimalSI)
+		switch {
+		case f == 0 && (k%2 == 0 || u > math.MaxInt64/1000 || u < math.MinInt64/1000):
+			rl[name] = *resource.NewQuantity(u, resource.BinarySI)
+		case u > math.MaxInt64/1000 || (u == math.MaxInt64/1000 && f > math.MaxInt64%1000) ||
+			u < math.MinInt64/1000 || (u == math.MinInt64/1000 && f < math.MinInt64%1000):
+			panic("generator: fractional quantity outside the int64 milli range")
+		default:
+			rl[name] = *resource.NewMilliQuantity(u*1000+f, resource.DecimalSI)
 		}
 	}
 	return rl
+}
+
+// quantityParts: q = units + frac/1000 exactly (both of q's sign); the harness asserts that it is
+func quantityParts(q resource.Quantity) (int64, int64) {
+	d := q.AsDec()
+	milli := new(big.Int).Set(d.UnscaledBig())
+	sc := int(d.Scale()) // value = unscaled * 10^-scale
+	if sc <= 3 {
+		milli.Mul(milli, new(big.Int).Exp(big.NewInt(10), big.NewInt(int64(3-sc)), nil))
+	} else {
+		div := new(big.Int).Exp(big.NewInt(10), big.NewInt(int64(sc-3)), nil)
+		rem := new(big.Int)
+		milli.QuoRem(milli, div, rem)
+		if rem.Sign() != 0 {
+			panic(fmt.Sprintf("quantity %s is not an integral number of milli-units", q.String()))
+		}
+	}
+	frac := new(big.Int)
+	units := new(big.Int)
+	units.QuoRem(milli, big.NewInt(1000), frac) // truncated division: remainder has the sign of milli
+	if !units.IsInt64() {
+		panic(fmt.Sprintf("quantity %s does not fit int64 units", q.String()))
+	}
+	return units.Int64(), frac.Int64()
 }
 
 func encRl(rl v1.ResourceList) []int64 {
@@ -81,7 +112,8 @@ func encRl(rl v1.ResourceList) []int64 {
 	sort.Slice(keys, func(a, b int) bool { return keys[a] < keys[b] })
 	out := []int64{int64(len(keys))}
 	for _, k := range keys {
-		out = append(out, k, milliOf(rl[rlName[k]]))
+		u, f := quantityParts(rl[rlName[k]])
+		out = append(out, k, u, f)
 	}
 	return out
 }
@@ -106,9 +138,9 @@ func runNewResource(in []int64) []int64 {
 func runConvert(in []int64) []int64 {
 	grid = 1.0
 	r := decRes(&tokReader{t: in})
-	before := fmt.Sprint(encRes(r))
+	before := fmt.Sprint(r.MilliCPU, r.Memory, r.ScalarResources)
 	rl := util.ConvertRes2ResList(r)
-	if fmt.Sprint(encRes(r)) != before {
+	if fmt.Sprint(r.MilliCPU, r.Memory, r.ScalarResources) != before {
 		panic("ConvertRes2ResList modified its Resource")
 	}
 	return encRl(rl)
@@ -173,13 +205,52 @@ var allNames = []int64{1, 2, 3, 4, 5, 6, 7, 8, 9, 10, 11, 12, 13, 14, 15, 16}
 var keptScalars = []int64{1, 4, 5, 6, 7, 8, 11, 12, 16}
 var lostScalars = []int64{9, 10, 13, 14, 15}
 
+// float64-exact integers above 2^53: m * 2^k with m < 2^53 and the product below 2^63, the boundary values
+// 2^53, 2^53+2, 2^62, 2^63-1024; with exact=false also the non-representable 2^53+1, 2^53+3, 2^62+1 (a
+// Quantity can hold them; NewResource rounds them to float64)
+func genLarge(r *vh.Rng, exact bool) int64 {
+	switch r.Intn(6) {
+	case 0:
+		return vh.Pick(r, []int64{1 << 53, (1 << 53) + 2, (1 << 53) - 1, (1 << 53) - 2, (1 << 53) + 4, 1 << 62, (1 << 63) - 1024, (1 << 63) - 2048, 1 << 60, 3 << 60, 1 << 54})
+	case 1:
+		if !exact {
+			return vh.Pick(r, []int64{(1 << 53) + 1, (1 << 53) + 3, (1 << 62) + 1, (1 << 54) + 2, (1 << 54) + 6, (1 << 63) - 513, (1 << 63) - 1023, (1 << 63) - 1025})
+		}
+		fallthrough
+	default:
+		k := uint(r.Range(1, 10))
+		m := int64(r.U64()>>11) | 1<<52 // 53 significant bits
+		if r.Chance(1, 3) {
+			m = int64(r.U64() >> uint(12+r.Intn(40)))
+			k = uint(r.Range(1, 62))
+			for m >= 1<<(63-k) {
+				m >>= 1
+			}
+		}
+		return m << k
+	}
+}
+
+// (units, frac) of a milli amount
+func parts(m int64) (int64, int64) { return m / 1000, m % 1000 }
+
 func genRl(r *vh.Rng) []int64 {
 	p := vh.Pick(r, []int{1, 2, 3})
 	out := []int64{0}
 	n := int64(0)
+	large := r.Chance(1, 3)
 	for _, k := range allNames {
 		if r.Chance(p, 4) {
-			out = append(out, k, genMilli(r))
+			var u, f int64
+			switch {
+			case large && r.Chance(1, 2) && (k == 1 || k == 3):
+				u, f = genLarge(r, r.Chance(2, 3)), 0 // whole units (memory bytes, pods) up to 2^63
+			case large && r.Chance(1, 2):
+				u, f = parts(genLarge(r, r.Chance(2, 3))) // milli amounts up to 2^63
+			default:
+				u, f = parts(genMilli(r))
+			}
+			out = append(out, k, u, f)
 			n++
 		}
 	}
@@ -189,7 +260,15 @@ func genRl(r *vh.Rng) []int64 {
 
 // a Resource on the unit grid: cpu in milli, memory in bytes, scalars in milli (pods: whole pods)
 func genResUnit(r *vh.Rng) []int64 {
+	large := r.Chance(1, 3)
+	sentinel := r.Chance(1, 25)
 	amount := func() int64 {
+		if sentinel && r.Chance(1, 2) {
+			return sentinelTok // math.MaxFloat64, as in InfiniteResource()
+		}
+		if large && r.Chance(1, 2) {
+			return genLarge(r, true)
+		}
 		v := genMilli(r)
 		if v >= 1<<53 {
 			v = 1<<53 - 1
@@ -224,7 +303,7 @@ func directedQuant(emit func(id string, sel int, in []int64, kind string, nontri
 	// every kept name with a fractional-unit amount, alone and together
 	for i, k := range []int64{2, 3, 1, 7, 4, 6, 11, 12, 16} {
 		for j, m := range []int64{2500, 999, 1, 1000, 1001} {
-			emit(fmt.Sprintf("quant-new-directed-%d-%d", i, j), 7, []int64{1, k, m}, "new_resource/directed", true, nil)
+			emit(fmt.Sprintf("quant-new-directed-%d-%d", i, j), 7, []int64{1, k, m / 1000, m % 1000}, "new_resource/directed", true, nil)
 		}
 	}
 	for i, k := range keptScalars {
@@ -232,5 +311,13 @@ func directedQuant(emit func(id string, sel int, in []int64, kind string, nontri
 			emit(fmt.Sprintf("quant-conv-directed-%d-%d", i, j), 8, []int64{1500, 4096, 1, 1, k, v}, "convert/directed", true, nil)
 		}
 	}
+	// above 2^53: 1 Ei of memory, ~9.2 TB of ephemeral-storage in milli-bytes, 2^53+2 pods, 2^63-1024 milli-cpu
+	emit("quant-conv-directed-large", 8, []int64{(1 << 63) - 1024, 1 << 60, 1, 3, 1, (1 << 53) + 2, 4, 3 << 60, 7, (1 << 53) + 1024}, "convert/directed", true, nil)
+	for i, v := range []int64{1 << 53, (1 << 53) + 2, 1 << 62, (1 << 63) - 1024} {
+		emit(fmt.Sprintf("quant-conv-directed-big-%d", i), 8, []int64{v, v, 1, 2, 1, v, 7, v}, "convert/directed", true, nil)
+		emit(fmt.Sprintf("quant-new-directed-big-%d", i), 7, []int64{4, 1, v, 0, 2, v / 1000, v % 1000, 3, v, 0, 7, v / 1000, v % 1000}, "new_resource/directed", true, nil)
+	}
+	// the MaxFloat64 sentinel through ConvertRes2ResList (int64(f) is implementation-defined; amd64: MinInt64)
+	emit("quant-conv-directed-sentinel", 8, []int64{sentinelTok, sentinelTok, 0, 0}, "convert/directed", true, nil)
 	emit("quant-conv-directed-demo", 8, []int64{1500, 4096, 1, 3, 4, 2500, 6, 4194304000, 7, 2500}, "convert/directed", true, nil)
 }
